@@ -192,7 +192,10 @@ GRAPH_URL_LINES = ["%include etc:local.conf", "%include mailto:x", "%include htt
                    "%include http://h:abc/x", "%include https://h:abc/x", "%include http://a b/x",
                    "%include http://user:pw@h/x",
                    "%include package:.rel:x", "%include package:..:x", "%include package:zcv.:x",
-                   "%include package:ZConfig.components.basic:", "%include package:ZConfig.components.basic:nosuch.xml"]
+                   "%include package:ZConfig.components.basic:", "%include package:ZConfig.components.basic:nosuch.xml",
+                   # names no file can have
+                   "%include part%00.conf", "%include a\x00b.conf", "%include file:///tmp/%00", "%include " + "d/" * 3000 + "x.conf",
+                   "%include http://[::1/x.conf", "%include http://\u2100/x"]
 
 
 def gen_graph(rng, sm):
@@ -204,6 +207,18 @@ def gen_graph(rng, sm):
             body.insert(rng.randrange(len(body) + 1),
                         rng.choice(GRAPH_URL_LINES) if rng.random() < 0.2 else rng.choice(GRAPH_LINES))
         files[name] = "".join(l + "\n" for l in body)
+    if sm.types and rng.random() < 0.3:
+        # a fragment that closes a section of its includer and opens another one in its place
+        t = rng.choice(sorted(sm.types))
+        x, y = rng.sample(sorted(files), 2)
+        ls = files[x].split("\n")
+        k = rng.randrange(len(ls))
+        ls[k:k] = ["</%s>" % t, "<%s%s>" % (t, rng.choice(["", " other"]))]
+        files[x] = "\n".join(ls)
+        ls = files[y].split("\n")
+        k = rng.randrange(len(ls))
+        ls[k:k] = ["<%s%s>" % (t, rng.choice(["", " main"])), "%%include %s" % x, "</%s>" % t]
+        files[y] = "\n".join(ls)
     return files
 
 
@@ -235,6 +250,14 @@ def check_graph(schema, files, main="a.conf", validator=False, schema_xml=None):
                 out.append((sig + ":top-without-url", "%s: %s" % (type(got2[1]).__name__, str(got2[1])[:200])))
         elif "internal" != got[0] and got2[0] != got[0]:
             out.append(("top-without-url-changes-verdict:%s-vs-%s" % (got2[0], got[0]), ""))
+        # each file's text on its own, handed over as a file-like object without a name: whatever
+        # its %include lines say, there is no URL to resolve them against
+        for name in sorted(files):
+            got3 = loadcheck.real_load(schema, files[name], url=None)
+            if got3[0] == "internal":
+                sig = classify_exception(got3[1], got3[2], got3[3])
+                if sig:
+                    out.append((sig + ":text-without-url", "%s: %s" % (type(got3[1]).__name__, str(got3[1])[:200])))
         if validator and schema_xml is not None:
             import ZConfig.validator
             spath = os.path.join(root, "schema.xml")
